@@ -1,0 +1,23 @@
+//go:build verif
+
+package gcsutil
+
+// Hooks for the verification harness (build tag "verif"); not compiled into normal builds.
+
+// VerifYield, when set, is called at the internal step boundaries of TransientLockMap.Lock/Unlock
+// ("L1", "L2a", "L2b", "L3", "U1", "U2", "U3") just before the step runs. The key is "" where the
+// call site does not know it (countedLock).
+var VerifYield func(point string, key string)
+
+func verifYield(point, key string) {
+	if h := VerifYield; h != nil {
+		h(point, key)
+	}
+}
+
+// VerifLen returns the number of entries currently in the lock map.
+func (l *TransientLockMap) VerifLen() int {
+	l.mu.Lock()
+	defer l.mu.Unlock()
+	return len(l.locks)
+}
